@@ -81,6 +81,29 @@ def r11_1(ctx):
         ctx.check(rets2 == ["self.eval(stage,%s)" % f.params[3]], "phase 2 evaluates the %s declaration through the common substitution" % which, detail="phase 2", expected="return self.eval(stage, expr)", found=rets2, fi=f)
 
 
+@rule("R11.10", min_instances=2, desc="a stage created from a template with its own horizon declaration (ocp.stage(template, T=.., t0=..)) does not inherit the template's guess for that horizon")
+def r11_10(ctx):
+    """D78: clone copied the template's guess table wholesale; with T=FreeTime(2) given for the clone the template's
+    set_initial(template.T, 3) overruled the new declaration (and with a numeric T the stale guess made Opti raise)."""
+    P = ctx.prog
+    f = P.own_method("Stage", "clone")
+    sc = ctx.scope(f)
+    for key, ph in (("T", "ret.T"), ("t0", "ret.t0")):
+        drops = [x for x in walk_no_nested(f.node) if (isinstance(x, ast.Delete) and any(ast.unparse(t) == "ret._initial[%s]" % ph for t in x.targets)) or
+                 (is_call_to(x, "pop", "ret._initial") and x.args and ast.unparse(x.args[0]) == ph)]
+        ok = False
+        for d in drops:
+            gs = [(ast.unparse(t).replace('"', "'"), pol) for t, pol in sc.guards(d)]
+            if gs in ([("'%s' in kwargs" % key, True)], [("'%s' not in kwargs" % key, False)]):
+                ok = True
+        # the drop must come after the guess table was copied
+        cp = [d for d in sc.defs.get("ret", []) if False]
+        tab = [st for st in walk_no_nested(f.node) if isinstance(st, ast.Assign) and ast.unparse(st.targets[0]) == "ret._initial"]
+        ok = ok and len(tab) == 1 and all(sc.order[sc.stmt_of(d) if not isinstance(d, ast.stmt) else d] > sc.order[tab[0]] for d in drops)
+        ctx.check(ok, "Stage.clone withdraws the template's guess for %s when the clone declares its own" % key, detail="the template's guess overrules the FreeTime guess of the clone's own declaration (or is applied to a horizon that is now a number)",
+                  expected="if '%s' in kwargs: ret._initial.pop(%s, None) (after the guess table was copied)" % (key, ph), found="; ".join(ast.unparse(d)[:60] for d in drops) or "no withdrawal", fi=f)
+
+
 @rule("R11.9", min_instances=9, desc="FreeTime(guess) keeps the guess as given (t0 guesses may be negative); with free T/t0 the horizon variable sits in V: the dynamics still read every symbol from its own slot (pack order, shared with C01)")
 def r11_9(ctx):
     from .c01 import check_pack_order
